@@ -9,7 +9,7 @@ if [ -n "${VERIF_REPO:-}" ]; then
   # tooling only (tools/sensitivity.sh): build the same simulator sources against another
   # checkout of the repository, through a shadow manifest, into a separate target directory.
   # The registered checks never set this and always build from /repo.
-  shadow=/verif/target/shadow
+  shadow=/verif/target/${VERIF_SHADOW:-shadow}
   mkdir -p "$shadow"
   sed -e "s|path = \"/repo/ts-rs\"|path = \"$VERIF_REPO/ts-rs\"|" /verif/sim/Cargo.toml > "$shadow/Cargo.toml"
   # a snapshot of the simulator sources taken by the caller, so that edits under /verif/sim
@@ -18,8 +18,8 @@ if [ -n "${VERIF_REPO:-}" ]; then
   printf '\n[[bin]]\nname = "tsrs-sim"\npath = "%s/main.rs"\n' "$simsrc" >> "$shadow/Cargo.toml"
   [ -f "$shadow/Cargo.lock" ] || cp /repo/Cargo.lock "$shadow/Cargo.lock"
   cd "$shadow" || exit 2
-  export CARGO_TARGET_DIR=/verif/target/shadow-target
-  bindir=/verif/target/shadow-bin
+  export CARGO_TARGET_DIR=$shadow-target
+  bindir=$shadow-bin
 else
   cd /verif/sim || exit 2
   export CARGO_TARGET_DIR=/verif/target
